@@ -14,7 +14,8 @@ identities are harness- or model-assigned numbers; the Go code only ever compare
 
 An *answer* packet is only ever inspected by `Join` (pointer comparison with `packet.None`,
 payload type switch), so answers are modelled by content: `Ans.empty` (the `None` singleton) or
-`Ans.pay v`.  Every public method of the Go type runs under `Tracer.mu`; each is one function here.
+`Ans.pay v`.  Every public method of the Go type runs under `Tracer.mu`; each is one function here
+(`dispatch`, `link`, `read`, `write`, `receiveW`, `dropW`).
 `resolve` is recursive in Go (a packet, then its sources); here by fuel, `Uniflow.Tracer.resolve`.
 The Go code can index out of range in the slot search of `resolve`; that is `panic := true`.
 
@@ -283,5 +284,23 @@ def receiveW (strict : Bool) (t : T) (w : Wid) (a : Option Ans) : T × List Ev :
       | some a => receive t p a
       | none => discard t p
     resolve strict defaultFuel t p
+
+/-- `New(ErrDroppedPacket)` as an answer. -/
+def Ans.dropped : Ans := .pay (.err [0])
+
+/-- the loop of `Drop`: `for _, write := range writes { t.receive(write, New(ErrDroppedPacket)); t.resolve(write) }` -/
+def dropLoop (strict : Bool) : List Pid → T → T × List Ev
+  | [], t => (t, [])
+  | p :: ps, t =>
+    let (t1, e1) := resolve strict defaultFuel (receive t p Ans.dropped) p
+    let (t2, e2) := dropLoop strict ps t1
+    (t2, e1 ++ e2)
+
+/-- `Drop(writer)`: detach the packets still awaiting a response from `writer` and answer each,
+in order, with a dropped packet error – called by the consumers of `writer.Receive()` once that
+channel is closed (the closed channel stands for the responses the writer pump discarded), and
+by a forward loop for its own writers once its reader is closed. -/
+def dropW (strict : Bool) (t : T) (w : Wid) : T × List Ev :=
+  dropLoop strict (getL t.writes w) { t with writes := adel t.writes w }
 
 end Uniflow.Tracer
